@@ -261,6 +261,51 @@ def main() -> None:
   print(w.nofield1 + w.nofield2)
 """}
 
+P_DIAG_IMPORT = {
+    "main.incn": """from lib::shapes import hidden_one, Square, hidden_two
+from lib::names import nothing_here
+
+def main() -> None:
+  print(1)
+""",
+    "lib/shapes.incn": """pub model Square:
+  pub s: int
+
+pub model Circle:
+  pub r: int
+
+pub def area(q: Square) -> int:
+  return q.s * q.s
+
+pub def zeta() -> int:
+  return 1
+
+pub const LIMIT: int = 3
+
+pub enum Kind:
+  A
+  B
+
+def hidden_one() -> int:
+  return 1
+
+def hidden_two() -> int:
+  return 2
+""",
+    "lib/names.incn": """pub def alpha() -> int:
+  return 1
+
+pub def beta() -> int:
+  return 2
+
+pub def gamma() -> int:
+  return 3
+
+pub def delta() -> int:
+  return 4
+""",
+}
+
 P_FMTDIR = {name + ".incn": "def %s( a:int ,b:int)->int:\n  return a+b\n\n\n\ndef main()->None:\n  print( %s(1,2) )\n" % (name, name)
             for name in ["alpha", "beta", "gamma", "delta", "epsilon", "zeta"]}
 
@@ -277,6 +322,7 @@ def programs(ctx):
         {"id": "diag_multi", "tag": "diag.multi", "files": P_DIAG_MULTI, "entry": "main.incn"},
         {"id": "diag_match", "tag": "diag.match", "files": P_DIAG_MATCH, "entry": "main.incn"},
         {"id": "diag_fields", "tag": "diag.fields", "files": P_DIAG_FIELDS, "entry": "main.incn"},
+        {"id": "diag_import", "tag": "diag.import", "files": P_DIAG_IMPORT, "entry": "main.incn"},
         {"id": "fmtdir", "tag": "fmtdir", "files": P_FMTDIR, "entry": "alpha.incn", "fmt_target": "."},
     ]
     ex = os.path.join(common.REPO, "examples")
